@@ -4,6 +4,7 @@ pub mod c02;
 pub mod c03;
 pub mod c04;
 pub mod c05;
+pub mod c06;
 pub mod cryptgen;
 pub mod c07;
 pub mod c08;
@@ -34,6 +35,7 @@ pub fn registry(id: &str) -> Option<(RunFn, ReplayFn)> {
         "C03" => Some((c03::run, c03::replay)),
         "C04" => Some((c04::run, c04::replay)),
         "C05" => Some((c05::run, c05::replay)),
+        "C06" => Some((c06::run, c06::replay)),
         "C07" => Some((c07::run, c07::replay)),
         "C08" => Some((c08::run, c08::replay)),
         "C09" => Some((c09::run, c09::replay)),
